@@ -77,14 +77,16 @@ def patched(obj, name, new):
 
 @contextlib.contextmanager
 def inline_pool():
-    from fast_ticc import main_loop
+    """run the optimisation tasks in-process: `multiprocessing.Pool(...)` yields an InlinePool while active
+    (independent of how the library names its pool helper)."""
+    import multiprocessing
     pools = []
 
-    def make(_n):
+    def make(*a, **k):
         p = InlinePool()
         pools.append(p)
         return p
-    with patched(main_loop, "_init_task_pool", make):
+    with patched(multiprocessing, "Pool", make):
         yield pools
 
 
